@@ -305,6 +305,52 @@ def mv_evict(ctx):
         ctx.fail('retain', body, 'MVReg::apply never filters self.vals against the Put clock')
 
 
+@rule('MV-LIVE', {
+    'C06': 'a Put with a real (non-empty) clock must reach the eviction and the store decision on every path: an early return on some '
+           'other condition silently drops writes',
+    'C08': 'same: a dominating Put that returns early never evicts what it observed',
+    'C20': 'a Put with an empty clock carries no dot: stored, it is a value no later write is known to supersede (residue)',
+}, floor=2)
+def mv_live(ctx):
+    """MVReg::apply: with a non-empty Put clock every path passes the eviction of superseded values and can reach the store of
+    the Put; with an empty Put clock nothing is stored."""
+    facts = ctx.facts
+    vf = vals_field(facts)
+    body = ctx.method(MVREG, 'CmRDT', 'apply')
+    it = interp(facts, body)
+    evicts, stores = [], []
+    for bb, c in sorted(it.calls.items()):
+        n = call_name(c.term)
+        if n in ('retain', 'retain_mut') and c.args and param_path(c.args[0].val) == (1, (vf,)):
+            evicts.append(bb)
+        if n in ('push', 'insert', 'push_back', 'extend') and len(c.args) >= 2 and param_path(c.args[0].val) == (1, (vf,)):
+            stores.append(bb)
+    for (bb, si), w in it.writes.items():      # `self.vals = filtered` spelling of the eviction
+        tgt = param_path(('field', ('param', 1), vf))
+        from ..summaries import loc_target
+        lt_ = loc_target(it, w.loc)
+        if lt_ is not None and lt_[0] == 1 and tuple(lt_[1]) == (vf,) and lt_[2] == 'w':
+            evicts.append(bb)
+
+    def atom(t):
+        if is_call(t, 'is_empty') and len(t[2]) == 1:
+            pp = param_path(t[2][0])
+            if pp and pp[0] == 2 and pp[1][-1:] == ('Put.clock',):
+                return 'E'
+        return None
+    if not evicts or not stores:
+        ctx.shape('anchors', body, 'MVReg::apply: eviction (retain / reassignment of vals) or store (push) site not found')
+        return
+    live = Reach(facts, body, Evaluator(facts, bool_atom=atom, assumption={'E': False}))
+    ok1 = live.must_pass(evicts) and any(b in live.reachable for b in stores)
+    ctx.check(ok1, 'non-empty', body, 'a Put with a non-empty clock always evicts and can be stored',
+              'a Put with a non-empty clock can return from apply without evicting the values it supersedes, or can never be stored'
+              + (' (escape path %s)' % live.escape_path(evicts) if not live.must_pass(evicts) else ''), line=block_line(it, evicts[0]))
+    dead = Reach(facts, body, Evaluator(facts, bool_atom=atom, assumption={'E': True}))
+    ctx.check(not any(b in dead.reachable for b in stores), 'empty', body, 'a Put with an empty clock stores nothing',
+              'a Put with an empty clock is stored: a value without any dot can only be superseded by accident', line=block_line(it, stores[0]))
+
+
 @rule('MV-IGNORE', {
     'C06': 'a Put is shown iff no applied write has superseded it',
     'C08': 'a dominated Put arriving late must be ignored',
@@ -692,41 +738,48 @@ def mv_eq(ctx):
     scans = {}
 
     def atom(t):
-        # `count(filter(iter(X.vals), |d| d == outer item)) == 0`
-        if t[0] == 'binop' and t[1] == 'Eq':
-            for x, y in ((t[2], t[3]), (t[3], t[2])):
-                if y[0] == 'const' and y[1] == 0 and is_call(x, 'count') and x[2] and is_call(x[2][0], 'filter'):
-                    f = x[2][0]
-                    inner_side = param_path(iter_source(f[2][0])[0])
-                    if not inner_side or inner_side[1] != (vf,) or set(iter_adaptors(f[2][0])) & LOSSY_ADAPTORS:
-                        return None
-                    for clo, m in closure_bindings(f):
-                        cb = facts.cb(clo[1])
-                        cr = drop_lv(subst(interp(facts, cb).ret, m))
-                        if cr[0] == 'call' and cinfo(cr[1])['name'] == 'eq' and len(cr[2]) == 2:
-                            a, b = versionless(cr[2][0]), versionless(cr[2][1])
-                            outer = [z for z in (a, b) if z[0] != 'item' and as_item(z) is not None]
-                            inner = [z for z in (a, b) if z[0] == 'item']
-                            if outer and inner:
-                                os_ = param_path(iter_source(as_item(outer[0]))[0])
-                                if os_ and os_[0] != inner_side[0] and os_[1] == (vf,) and whole_iteration_over(as_item(outer[0]), os_[0], (vf,)):
-                                    scans[os_[0]] = True
-                                    return 'missing%d' % os_[0]
+        # `count(filter(iter(X.vals), |d| d == outer item))`: how often the outer item occurs on the other side (0, 1, 2 = more)
+        x = t
+        if is_call(x, 'count') and x[2] and is_call(x[2][0], 'filter'):
+            f = x[2][0]
+            inner_side = param_path(iter_source(f[2][0])[0])
+            if not inner_side or inner_side[1] != (vf,) or set(iter_adaptors(f[2][0])) & LOSSY_ADAPTORS:
+                return None
+            for clo, m in closure_bindings(f):
+                cb = facts.cb(clo[1])
+                cr = drop_lv(subst(interp(facts, cb).ret, m))
+                if cr[0] == 'call' and cinfo(cr[1])['name'] == 'eq' and len(cr[2]) == 2:
+                    a, b = versionless(cr[2][0]), versionless(cr[2][1])
+                    outer = [z for z in (a, b) if z[0] != 'item' and as_item(z) is not None]
+                    inner = [z for z in (a, b) if z[0] == 'item']
+                    if outer and inner:
+                        os_ = param_path(iter_source(as_item(outer[0]))[0])
+                        if os_ and os_[0] != inner_side[0] and os_[1] == (vf,) and whole_iteration_over(as_item(outer[0]), os_[0], (vf,)):
+                            scans[os_[0]] = True
+                            return ('map', 'found%d' % os_[0], {0: 0, 1: 1, 2: 2})
         return None
     res = {}
-    for m1 in (True, False):
-        for m2 in (True, False):
-            rc = Reach(facts, body, Evaluator(facts, bool_atom=atom, assumption={'missing1': m1, 'missing2': m2}))
-            res[(m1, m2)] = (any(b in rc.reachable for b, _ in false_s), any(b in rc.reachable for b, _ in true_s))
+    must_true = None
+    for c1 in (0, 1, 2):
+        for c2 in (0, 1, 2):
+            rc = Reach(facts, body, Evaluator(facts, bool_atom=atom, assumption={'found1': c1, 'found2': c2}))
+            res[(c1, c2)] = (any(b in rc.reachable for b, _ in false_s), any(b in rc.reachable for b, _ in true_s))
+            if (c1, c2) == (1, 1):
+                panics = [bi for bi, blk in enumerate(body.blocks) if not blk.get('cleanup') and blk['term'].get('k') == 'call'
+                          and blk['term'].get('target') is None]
+                must_true = bool(true_s) and rc.must_pass([b for b, _ in true_s]) and not any(b in rc.reachable for b in panics)
     errs = []
     if set(scans) != {1, 2}:
         errs.append('equality does not look for every value of each side among the values of the other side (scanned sides: %s)' % sorted(scans))
     else:
-        if res[(False, False)][0] or not res[(False, False)][1]:
+        if res[(1, 1)][0] or not res[(1, 1)][1]:
             errs.append('registers holding the same values can compare unequal')
-        if res[(True, False)][1] and not res[(True, False)][0]:
+        elif not must_true:
+            errs.append('comparing registers that hold the same values (each found exactly once on the other side) can fail to return '
+                        'true (a path diverges)')
+        if res[(0, 1)][1] and not res[(0, 1)][0]:
             errs.append('a value of self missing from other does not make the registers unequal')
-        if not res[(True, False)][0] or not res[(False, True)][0]:
+        if not res[(0, 1)][0] or not res[(1, 0)][0]:
             errs.append('a value present on one side only does not make the registers unequal')
     ctx.check(not errs, 'eq', body, 'order-insensitive set equality over both sides', errs[0] if errs else '',
-              details={'(own value missing in other, other value missing in own) -> (false may, true may)': {str(k): v for k, v in res.items()}})
+              details={'(times an own value occurs in other, times a value of other occurs in own) -> (false may, true may)': {str(k): v for k, v in res.items()}})
